@@ -108,11 +108,13 @@ def scenarios(rep, tier, seed):
 def run_all(rep, scns, tag):
     traces = []
     episodes = []
+    finals = []
     for scn in scns:
         rec, why = K.run_scenario(scn)
         if rec is None:
             K.handle_skip(rep, scn, why, PIDS)
             continue
+        finals.append((scn, rec))
         if scn["kind"] == "knn":
             for et in K.episode_traces(scn, rec):
                 episodes.append((scn, {"trace": et}))
@@ -134,6 +136,19 @@ def run_all(rep, scns, tag):
         rep.count("traces_validated_against_impl", len(episodes))
         for v in sub.violations:
             rep.violation(v["site"], "candidate_k_not_scored_with_its_own_neighbourhood_size", "knn", v["replay"])
+    if finals:
+        # "the final model is built with that k": the graph the final clustering walked is the best_k-NN graph (plus plateau arcs),
+        # not whatever an earlier candidate left behind - OPFKnnTrace's GraphOK / neighbour clauses on the final episode
+        sub = H.Report("C13", rep.tier, rep.seed, "model_checking")
+        K.judge(sub, finals, "c16fin-" + tag, ("C13",), detail_fn=lambda s_, r_, c_: s_["kind"])
+        for r in sub.cov["tlc_runs"]:
+            rep.cov["tlc_runs"].append(r)
+            rep.cov["states"] += r["distinct_states"]
+            rep.cov["transitions"] += r["states_generated"]
+        rep.count("final_models_judged_on_their_graph", len(finals))
+        for v in sub.violations:
+            if v["clause"] in ("clustering_graph_is_not_knn_graph_plus_plateaus", "sample_not_a_graph_neighbour_of_its_predecessor"):
+                rep.violation(v["site"], "final_model_not_built_on_the_best_k_graph", v["detail"], v["replay"])
     if not traces:
         return
     path = H.write_json(os.path.join(H.subdir("c16"), "ks-%s.json" % tag), [t for _, t in traces])
